@@ -60,6 +60,7 @@ class Harness:
         self.nres = 0
         self.results = []
         self.raised = []
+        self.delegs = []
         self.on_enter = None
 
     def start(self, script):
@@ -68,6 +69,7 @@ class Harness:
         self.i = 0
         self.results = []
         self.raised = []
+        self.delegs = []
 
     def reg(self, mid):
         def deco(fn):
@@ -110,6 +112,7 @@ class Harness:
                 n: (S.build_value(kwv[n], env) if n in kwv else (vals[0] if vals else None))
                 for n in site.get("kws", [])
             }
+        self.delegs.append((len(self.log) - 1, mid, site, list(pos), dict(kws)))
         return (k + 1, pos, kws)
 
     def ret(self, mid):
